@@ -21,3 +21,9 @@ func VerifXLRotateLowEntropyMask(initialMask uint64, rotation appctlpb.LowEntrop
 func VerifXLMaxFragmentSizeInternal(mtu int, transport common.TransportProtocol) int {
 	return maxFragmentSizeInternal(mtu, transport)
 }
+
+// VerifXLValidateLowEntropyCodecParams calls validateLowEntropyCodecParams.
+func VerifXLValidateLowEntropyCodecParams(mode int32, halfMask uint32, rotation int32) (sourceBytesPerChunk int, halfMaskOnes int, failed bool) {
+	p, err := validateLowEntropyCodecParams(appctlpb.LowEntropyMode(mode), halfMask, appctlpb.LowEntropyMaskRotation(rotation))
+	return p.sourceBytesPerChunk, p.halfMaskOnes, err != nil
+}
